@@ -128,7 +128,9 @@ def _perm_direction(ctx):
     rows of  dot(transpose(a), b)  are the columns of a, its columns those of b;
     linear_sum_assignment(M) returns (row indices, column indices) of M; dict(zip(r, c)) maps
     r to c; [d[i] for i in range(<number of columns of X>)] is indexed like its keys."""
-    f = ctx.repo.func(CONGRUENCE)
+    from ..inline import with_inlined
+
+    f = with_inlined(ctx.repo, ctx.repo.func(CONGRUENCE))  # the per-pair work may live in a private helper
     p1, p2 = f.pos_params[0], f.pos_params[1]
     nodes = list(own_scope_nodes(f.node))
     # the loop that pairs the two lists
@@ -211,9 +213,17 @@ def perm_space(ctx: Ctx):
         raise AnalysisError("PERM-SPACE: cp_permute_factors no longer calls congruence_coefficient; cannot decide")
     n_uses = 0
     for s, c in calls:
-        if len(c.args) < 2 or not (isinstance(s.targets[0], ast.Tuple) and len(s.targets[0].elts) == 2 and isinstance(s.targets[0].elts[1], ast.Name)):
-            raise AnalysisError("PERM-SPACE: the congruence_coefficient call in cp_permute_factors is no longer `_, perm = congruence_coefficient(a, b)`; cannot decide")
-        perm = s.targets[0].elts[1].id
+        perm = None
+        if len(c.args) >= 2 and isinstance(s.targets[0], ast.Tuple) and len(s.targets[0].elts) == 2 and isinstance(s.targets[0].elts[1], ast.Name):
+            perm = s.targets[0].elts[1].id
+        elif len(c.args) >= 2 and isinstance(s.targets[0], ast.Name):
+            # r = congruence_coefficient(a, b); ... r[1] ...: names bound to (something built from) r[1]
+            r = s.targets[0].id
+            for s2 in own_scope_nodes(g.node):
+                if isinstance(s2, ast.Assign) and isinstance(s2.targets[0], ast.Name) and any(isinstance(x, ast.Subscript) and is_name(x.value, r) and isinstance(x.slice, ast.Constant) and x.slice.value == 1 for x in ast.walk(s2.value)):
+                    perm = s2.targets[0].id
+        if perm is None:
+            raise AnalysisError("PERM-SPACE: the congruence_coefficient call in cp_permute_factors is no longer `_, perm = congruence_coefficient(a, b)` (or its result indexed with [1]); cannot decide")
         idx_f, val_f = family(c.args[idx_pos]), family(c.args[val_pos])
         # names holding the permutation (perm = T.tensor(perm, ...))
         perms = {perm}
